@@ -35,13 +35,25 @@ def stripPre : List Char → List Char → Option (List Char)
 
 /-! ## `_search_for_date_boilerplate` -/
 
+/-- `- DA \s` here -/
+def altDA (s : List Char) : Bool :=
+  match stripPre ['-','D','A'] s with | some (c :: _) => isSpace c | _ => false
+
+/-- `\s HO :` here -/
+def altHO (s : List Char) : Bool :=
+  match s with | c :: r => isSpace c && (stripPre ['H','O',':'] r).isSome | [] => false
+
+/-- `: MI (?:[+]|$)` here -/
+def altMI (s : List Char) : Bool :=
+  match stripPre [':','M','I'] s with | some [] => true | some (c :: _) => c = '+' | none => false
+
+/-- `[+] ZONE $` here -/
+def altZONE (s : List Char) : Bool :=
+  match stripPre ['+','Z','O','N','E'] s with | some [] => true | _ => false
+
 /-- the alternatives `-MO-`, `-DA\s`, `\sHO:`, `:MI(?:[+]|$)`, `[+]ZONE$` tried at one position -/
 def boilerAt (s : List Char) : Bool :=
-  (stripPre ['-','M','O','-'] s).isSome
-  || (match stripPre ['-','D','A'] s with | some (c :: _) => isSpace c | _ => false)
-  || (match s with | c :: r => isSpace c && (stripPre ['H','O',':'] r).isSome | [] => false)
-  || (match stripPre [':','M','I'] s with | some [] => true | some (c :: _) => c = '+' | none => false)
-  || (match stripPre ['+','Z','O','N','E'] s with | some [] => true | _ => false)
+  (stripPre ['-','M','O','-'] s).isSome || altDA s || altHO s || altMI s || altZONE s
 
 def boilerAny : List Char → Bool
   | [] => false
@@ -258,19 +270,27 @@ def hintOk : List Char → Bool
     (sg = '+' || sg = '-') && [a, b, c, d].all isDigit && num2 c d ≤ 59 && num2 a b * 60 + num2 c d < 1440
   | _ => false
 
+/-- the zone text of the result: the written offset, `[zone] = _timezones[zabbr]` (`none` = `ValueError` on unpacking,
+    re-raised as DateSyntaxError), else the hint (`none` = DateSyntaxError) -/
+def resolveZone (z : Zone) (hint : Option (List Char)) : Option (List Char) :=
+  match z with
+  | .num zh zm => some (zh ++ zm)
+  | .abbr a => (match lookupTz a with | some [z] => some z | _ => none)
+  | .none => hint
+
+def hintBad (hint : Option (List Char)) : Bool :=
+  match hint with
+  | some h => !hintOk h
+  | none => false
+
 def fix (s : List Char) (hint : Option (List Char)) : Outcome :=
   let s := strip s
   if hasBoilerplate s then .boilerplate else
-  if (match hint with | some h => !hintOk h | none => false) then .hintErr else
+  if hintBad hint then .hintErr else
   match parseDate s with
   | none => .syntaxErr
   | some g =>
-    let zone : Option (List Char) :=
-      match g.zone with
-      | .num zh zm => some (zh ++ zm)
-      | .abbr a => (match lookupTz a with | some [z] => some z | _ => none)   -- `[zone] = _timezones[zabbr]`
-      | .none => hint
-    match zone with
+    match resolveZone g.zone hint with
     | none => .syntaxErr
     | some zone =>
       let t := g.date ++ ' ' :: g.time ++ zone
